@@ -10,10 +10,11 @@ What Go returns as closures is kept first order:
 * the closure of `unifyAllAsDynamic` (`return cty.DynamicVal, nil`) is `UConv.constDyn`;
 * the closure composed by `unifyTuplesAsList` / `unifyObjectsAsMaps`,
 
-      out, err = tupleConv(in); if err != nil { return out, err }; return listConv(in)
+      out, err = tupleConv(in); if err != nil { return out, err }; return listConv(out)
 
-  is `UConv.thenOrig tupleConv listConv`.  AS WRITTEN the second conversion is applied
-  to the ORIGINAL value `in`, not to the output of the first: `applyU` does the same.
+  is `UConv.andThen tupleConv listConv`: the second conversion is applied to the OUTPUT
+  of the first (since /repo df9d7d3; before that repair the closure ended in
+  `listConv(in)`, the original value), and `applyU` does the same.
 
 Go panics are values: `ElementType()` / `AttributeTypes()` / `TupleElementTypes()`
 on a type of another kind, `types[0]` and `convs[idx]` out of range, and the call of a
@@ -52,7 +53,7 @@ inductive UConv where
   /-- the closure composed in unifyTuplesAsList / unifyObjectsAsMaps; `first` is
   `tupleConv` / `objConv` (possibly nil: then the call panics), `second` is
   `listConv` / `mapConv` -/
-  | thenOrig (first : Option UConv) (second : UConv)
+  | andThen (first : Option UConv) (second : UConv)
   deriving Repr, Inhabited, BEq
 
 /-- the returned `[]Conversion`: `none` = nil entry -/
@@ -65,10 +66,10 @@ abbrev UOut := Option (Ty × Convs)
 def applyU (E : Env) (fuel : Nat) : UConv → Value → Res Value
   | .plan p, v => apply E fuel p v
   | .constDyn, _ => .ok (Value.unknown .dyn)
-  | .thenOrig none _, _ => .panic "call of nil conversion"
-  | .thenOrig (some f) s, v =>
+  | .andThen none _, _ => .panic "call of nil conversion"
+  | .andThen (some f) s, v =>
     match applyU E fuel f v with
-    | .ok _ => applyU E fuel s v          -- `return listConv(in)`: the original value
+    | .ok out => applyU E fuel s out      -- `return listConv(out)`: the output of the first step
     | other => other
 
 /-! ## Type accessors that panic on the wrong kind -/
@@ -255,7 +256,7 @@ def wrapLoop (firstConvs : Convs) : Nat → List Nat → Convs → Res Convs
     (idxR firstConvs i).bind fun first =>
       match second with
       | none => wrapLoop firstConvs (i + 1) rest (convs.set idx first)
-      | some s => wrapLoop firstConvs (i + 1) rest (convs.set idx (some (.thenOrig first s)))
+      | some s => wrapLoop firstConvs (i + 1) rest (convs.set idx (some (.andThen first s)))
 
 variable (self : Bool → List Ty → Res UOut)
 
